@@ -5,7 +5,7 @@ from .. import standalone as sa
 def run(ck):
     asan = ck.build("asan", ["sess_mon"])["sess_mon"]
     thorough = ck.tier == "thorough"
-    rounds = int((120 if thorough else 30) * ck.scale)
+    rounds = int((6000 if thorough else 30) * ck.scale)
     jobs = []
     for cfg in range(16):
         a = ["--rounds", rounds, "--seed", sa.subseed(ck, cfg), "--config", cfg]
